@@ -356,6 +356,19 @@ func CheckGME(m *pb.ApiConfig) string {
 	if aliased(got, got2) {
 		return "two results of GCPConfig() share sub-objects"
 	}
+	// a later update that carries another (or no) gRPC-GCP configuration does not change the configuration of the object
+	for _, other := range []*pb.ApiConfig{nil, {ChannelPool: &pb.ChannelPoolConfig{MaxSize: 9, MinSize: 2}}} {
+		if err := gme.UpdateMultiEndpoints(&grpcgcp.GCPMultiEndpointOptions{
+			GRPCgcpConfig:  other,
+			MultiEndpoints: map[string]*multiendpoint.MultiEndpointOptions{"default": {Endpoints: []string{"endpoint-1", "endpoint-2"}}},
+			Default:        "default",
+		}); err != nil {
+			return "UpdateMultiEndpoints: " + err.Error()
+		}
+		if got4 := gme.GCPConfig(); !proto.Equal(got4, before) {
+			return fmt.Sprintf("an update carrying the configuration %v changed GCPConfig() from %v to %v", other, before, got4)
+		}
+	}
 	// mutate the caller's object: the stored configuration must not follow
 	scribble(m)
 	if got3 := gme.GCPConfig(); !proto.Equal(got3, before) {
